@@ -90,7 +90,7 @@ fn probe_meta(k: u8) -> (Vec<u8>, Vec<u8>, u32, bool) {
         7 => (b" Spaced ".to_vec(), b" S ".to_vec(), 7, true),
         8 => (b"\0".to_vec(), b"\0".to_vec(), 7, true),
         9 => (b"line\nbreak\ttab".to_vec(), b"L\r".to_vec(), 7, true),
-        10 => (vec![b'n'; 200], vec![b's'; 40], 7, true),
+        10 => (vec![b'n'; 300], vec![b's'; 257], 7, true),
         11 => ("\u{feff}Bom".as_bytes().to_vec(), "\u{ff26}\u{ff37}".as_bytes().to_vec(), 7, true),
         0 => (b"Probe".to_vec(), b"PRB".to_vec(), 7, true),
         1 => ("Prøbe 漢".as_bytes().to_vec(), "¥".as_bytes().to_vec(), 0, true),
@@ -103,7 +103,7 @@ fn probe_meta(k: u8) -> (Vec<u8>, Vec<u8>, u32, bool) {
 
 fn tok() -> impl Strategy<Value = Tok> {
     prop_oneof![
-        5 => (0u8..5).prop_map(Tok::ItsDeployed),
+        7 => (0u8..20).prop_map(Tok::ItsDeployed),
         3 => Just(Tok::Asset),
         7 => (0u8..12).prop_map(Tok::Probe),
         1 => Just(Tok::ItsDeployedViaCanonical),
@@ -118,7 +118,7 @@ impl Property for C18 {
         "C18"
     }
     fn rule(&self) -> &'static str {
-        "proptest single cases: token (ITS-deployed with 5 metadata classes incl. multi-byte names, decimals 0/255, 32/33-byte strings; Stellar asset contract registered as canonical; harness token with metadata ok / multi-byte / decimals 255 / empty name / empty symbol / decimals 256 / names with trailing NULs, surrounding spaces, a single NUL, control characters, 200 bytes, BOM and full-width letters registered as canonical, optionally renamed after an earlier remote deployment under other metadata; ITS-deployed token addressed through the canonical entry point; unregistered salt / asset) x caller (original deployer, another address reusing the salt) x destination (trusted, never trusted, removed again, the hub chain itself, empty, a trusted name in another letter case / with a trailing space) x gas (0, negative, affordable, exact balance, balance+1) x payer authorised or not. Oracle: success iff id registered for the caller's own (deployer,salt) / the canonical address, destination trusted, metadata representable, payer authorised a positive affordable payment; then returned id = independent derivation, exactly one contract_called to the hub whose payload equals the harness's own ABI encoding of SendToHub{destination, Deploy{id,name,symbol,decimals,no minter}}, a gas payment event with the same payload hash, payer and amount, one service event naming the id and the actual metadata, and the only balance change is the gas payment; otherwise failure with the ledger snapshot identical. non-trivial = every case except the suite's fixed happy path; distinct by Debug hash"
+        "proptest single cases: token (ITS-deployed with 5 metadata classes and with nobody / the deployer / the other caller as designated local minter incl. multi-byte names, decimals 0/255, 32/33-byte strings; Stellar asset contract registered as canonical; harness token with metadata ok / multi-byte / decimals 255 / empty name / empty symbol / decimals 256 / names with trailing NULs, surrounding spaces, a single NUL, control characters, 300 / 257 bytes, BOM and full-width letters registered as canonical, optionally renamed after an earlier remote deployment under other metadata; ITS-deployed token addressed through the canonical entry point; unregistered salt / asset) x caller (original deployer, another address reusing the salt) x destination (trusted, never trusted, removed again, the hub chain itself, empty, a trusted name in another letter case / with a trailing space) x gas (0, negative, affordable, exact balance, balance+1) x payer authorised or not. Oracle: success iff id registered for the caller's own (deployer,salt) / the canonical address, destination trusted, metadata representable, payer authorised a positive affordable payment; then returned id = independent derivation, exactly one contract_called to the hub whose payload equals the harness's own ABI encoding of SendToHub{destination, Deploy{id,name,symbol,decimals,no minter}}, a gas payment event with the same payload hash, payer and amount, one service event naming the id and the actual metadata, and the only balance change is the gas payment; otherwise failure with the ledger snapshot identical. non-trivial = every case except the suite's fixed happy path; distinct by Debug hash"
     }
     fn cases(&self, tier: Tier) -> u64 {
         tier.pick(15000, 150000)
@@ -141,7 +141,7 @@ impl Property for C18 {
             v.push(Case { tok: Tok::Probe(k), who: Who::OriginalDeployer, dest: Dest::Trusted, gas: GasC::Affordable(3), authorised: true, renamed_after_earlier_deployment: false });
             v.push(Case { tok: Tok::Probe(k), who: Who::OriginalDeployer, dest: Dest::Trusted, gas: GasC::Affordable(3), authorised: true, renamed_after_earlier_deployment: true });
         }
-        for k in 0..5 {
+        for k in 0..10 {
             v.push(Case { tok: Tok::ItsDeployed(k), who: Who::OriginalDeployer, dest: Dest::Trusted, gas: GasC::Affordable(3), authorised: true, renamed_after_earlier_deployment: false });
             v.push(Case { tok: Tok::ItsDeployed(k), who: Who::OtherReusingSalt, dest: Dest::Trusted, gas: GasC::Affordable(3), authorised: true, renamed_after_earlier_deployment: false });
         }
@@ -170,7 +170,18 @@ impl Property for C18 {
         match case.tok {
             Tok::ItsDeployed(k) => {
                 let (n, s, d) = its_meta(k);
-                let (_, addr) = w.deploy_token(&deployer, &salt, &n, &s, d, 100, None).map_err(|e| format!("setup: {}", e))?;
+                // k / 5: who holds the minter role on the local token (nobody besides the service / the deployer itself /
+                // the other caller / both callers): the announcement must carry no minter in every case
+                let (supply, local_minter) = match k / 5 % 4 {
+                    0 => (100, None),
+                    1 => (0, Some(deployer.clone())),
+                    2 => (0, Some(other.clone())),
+                    _ => (100, Some(deployer.clone())),
+                };
+                if local_minter.is_some() {
+                    cx.label("local_token_has_a_designated_minter");
+                }
+                let (_, addr) = w.deploy_token(&deployer, &salt, &n, &s, d, supply, local_minter).map_err(|e| format!("setup: {}", e))?;
                 token_addr = Some(addr);
                 meta = Some((n, s, d));
                 canonical_entry = false;
